@@ -43,6 +43,11 @@ def fill(c, v, n, rng, styles=("w", "r", "t")):
         s = rng.choice(styles)
         c.add("tpush %d" % v if s == "t" else "push %d %s0" % (v, s))
 
+def fill_ty(c, v, n, rng, ty):
+    for _ in range(n):
+        s = rng.choice("wrt")
+        c.add("tpush %d" % v if s == "t" else "push %d %s%d" % (v, s, ty))
+
 # ---------------------------------------------------------------------------------------------
 def setup3(c, bk, traits, L, rng, aux_traits=None):
     """v0: the vector under test with L elements; v1: same type, 2 elements; v2: other type, 1 element"""
@@ -104,7 +109,7 @@ def gen_elementwise(rng, layouts, kinds, Ls, tag="ew"):
                 c.finish([0, 1, 2]); c.tags.add("probe")
                 yield c
 
-def rand_history(rng, name, layout, kinds, nops, maxlen, nvecs=3, max_created=None):
+def rand_history(rng, name, layout, kinds, nops, maxlen, nvecs=3, max_created=None, ranges=False, clones=False, caps=False):
     """long random fault-free history over several vectors exchanging elements"""
     c = Case(name, layout)
     size = layout[0]
@@ -175,6 +180,30 @@ def rand_history(rng, name, layout, kinds, nops, maxlen, nvecs=3, max_created=No
             c.add("clear %d" % v); d["len"] = 0
         elif r < 0.82:
             c.add("release")
+        elif r < 0.90 and ranges and created < budget - 4:
+            s_ = rng.randint(0, ln); e_ = rng.randint(s_, ln)
+            lo, hi = rng.choice(range_forms(s_, e_, ln))
+            typed = rng.random() < 0.4
+            sinks = ["drop", "dc%d" % d["ty"]] if typed else ["drop", "dc%d" % d["ty"], "dc%d" % (1 - d["ty"]), "swap%d" % d["ty"]]
+            n_eat = rng.randint(0, (e_ - s_) + 1)
+            eats = ",".join("%s:%s" % (rng.choice("FB"), rng.choice(sinks)) for _ in range(n_eat)) or "-"
+            created += sum(1 for x in eats.split(",") if "swap" in x)
+            if rng.random() < 0.5:
+                c.add("drain %d %s %s %s %s drop" % (v, lo, hi, "t" if typed else "e", eats)); d["len"] = ln - (e_ - s_)
+            else:
+                k = rng.randint(0, 3)
+                if d["cap"] is not None: k = min(k, d["cap"] - (ln - (e_ - s_)))
+                repl = ["w%d" % d["ty"]] * k if typed else [rng.choice(["w", "r"]) + str(d["ty"]) for _ in range(k)]
+                c.add("splice %d %s %s %s %s +0 %s drop" % (v, lo, hi, "t" if typed else "e", ",".join(repl) or "-", eats))
+                d["len"] = ln - (e_ - s_) + k; created += k
+        elif r < 0.93 and clones and "clone" in d["tr"] and len(vs) < 6 and created + ln < budget:
+            if d["cap"] is None or d["cap"] >= 0:
+                c.add("clone %d" % v)
+                vs.append({"v": c.nvec, "ty": d["ty"], "bk": d["bk"], "tr": d["tr"], "len": ln, "cap": d["cap"]}); c.nvec += 1
+                created += ln
+        elif r < 0.96 and caps and d["cap"] is None:
+            k = rng.choice(["reserve", "reserveexact", "shrinkto", "shrinktofit"])
+            c.add("%s %d" % (k, v) if k == "shrinktofit" else "%s %d %d" % (k, v, rng.randint(0, 2 * ln + 3)))
         else:
             if grow and room:
                 c.add("push %d w%d" % (v, d["ty"])); d["len"] += 1; created += 1
@@ -213,7 +242,7 @@ def choice_strings(r, extra, rng, cap=40):
             out.append("".join("FB"[(k >> j) & 1] for j in range(n)))
     if len(out) > cap:
         keep = ["", "F" * (r + extra), "B" * (r + extra), ("FB" * r)[:r + extra], ("BF" * r)[:r + extra]]
-        out = keep + rng.sample(out, cap - len(keep))
+        out = keep[:cap] + rng.sample(out, max(0, cap - len(keep)))
     return out
 
 def gen_ranges(rng, layouts, kinds, Ls, tag, typed_too=True, sinks_erased=None, with_splice=True,
